@@ -66,48 +66,8 @@ mod verif_ift_patchmap {
         kani::cover!(b[80] == 0 && b[81] == 11);
     }
 
-    // Entry::design_space_intersects (C19 "design-space conditions intersect that definition"): true iff SOME axis present in
-    // both spaces has overlapping segments - one overlapping shared axis suffices whatever the other shared axes do (so the
-    // answer can only flip to true when the requested space grows). (Wider versions - axes present or absent on either side, all segment
-    // bounds symbolic; or both requested values symbolic - did not finish in 2400 s / 1800 s.)
-    //@harness unit=U19.7 props=C19 tier=quick level=bounded bound="two axes (wght, wdth) present on both sides; entry segments fixed to 0..=10; one requested segment fixed to 50..=50 (a miss), the other x..=x for any x; both assignments of the symbolic axis" timeout=1800 fns=Entry::design_space_intersects,RangeSet::intersection
-    #[kani::proof]
-    #[kani::unwind(8)]
-    #[kani::stub(std::hash::RandomState::new, fixed_state)]
-    fn design_space_intersects_wght_symbolic() {
-        let x: i32 = kani::any();
-        design_space_case(x, 50);
-    }
-    //@harness unit=U19.7 props=C19 tier=quick level=bounded bound="as above with the symbolic value on the wdth axis" timeout=1800 fns=Entry::design_space_intersects,RangeSet::intersection
-    #[kani::proof]
-    #[kani::unwind(8)]
-    #[kani::stub(std::hash::RandomState::new, fixed_state)]
-    fn design_space_intersects_wdth_symbolic() {
-        let y: i32 = kani::any();
-        design_space_case(50, y);
-    }
-    fn design_space_case(x: i32, y: i32) {
-        let tags = [Tag::new(b"wght"), Tag::new(b"wdth")];
-        let mut a: HashMap<Tag, RangeSet<Fixed>> = HashMap::new();
-        let mut b: HashMap<Tag, RangeSet<Fixed>> = HashMap::new();
-        let mut i = 0;
-        while i < 2 {
-            let mut r = RangeSet::default();
-            r.insert(Fixed::from_bits(0)..=Fixed::from_bits(10));
-            a.insert(tags[i], r);
-            let q = if i == 0 { x } else { y };
-            let mut r = RangeSet::default();
-            r.insert(Fixed::from_bits(q)..=Fixed::from_bits(q));
-            b.insert(tags[i], r);
-            i += 1;
-        }
-        let want = (0 <= x && x <= 10) || (0 <= y && y <= 10);
-        let got = Entry::design_space_intersects(&a, &b);
-        assert!(got == want);
-        kani::cover!(want);
-        kani::cover!(!want);
-    }
-
+    // NOTE: Kani harnesses for Entry::design_space_intersects (two axes, HashMap<Tag, RangeSet<Fixed>> on both sides) did not finish in
+    // 1800 s even with a single symbolic value; the function is proved in the Verus unit U19.5 instead (attic/c19_design_space_intersects.proofs.rs.txt).
     // NOTE: a harness decoding one whole entry (decode_format2_entry on <= 12 arbitrary bytes after one prior entry) did not
     // finish in 1800 s (String / HashMap / sparse-bit-set decoding) and was removed: that the decoder establishes entries_wf stays
     // an ASSUMPTION of unit U19.1.
